@@ -214,7 +214,7 @@ void exec_seq(const J& plan) {
     SConn& c = conns[i];
     total_items += c.received.size(); with_suffix += c.items_with_suffix; failing += c.failing_calls;
     std::vector<MV> exp; uint64_t off = 0; const uint8_t* p = c.stream.data(); uint64_t n = c.deliver_total;
-    while (off < n) { RefLoad r = ref_load(p + off, (size_t)(n - off), L, sa_knobs().max_request); if (r.st != R_ITEM) break; exp.push_back(std::move(r.tree)); off += r.read; }
+    while (off < n) { RefLoad r = ref_load(p + off, (size_t)(n - off), L, sa_max_request()); if (r.st != R_ITEM) break; exp.push_back(std::move(r.tree)); off += r.read; }
     std::string where = fmt("conn %zu (%llu bytes delivered in %llu fragment(s))", i, (unsigned long long)n, (unsigned long long)c.fragments);
     if (c.received.size() != exp.size()) { fail("C14", "sequence-item-count", where + fmt(": receiver obtained %zu item(s), the delivered bytes contain %zu", c.received.size(), exp.size())); break; }
     for (size_t k = 0; k < exp.size(); k++) if (!mv_equal(c.received[k], exp[k])) { fail("C14", "sequence-item-differs", where + fmt(": item %zu differs: got %s expected %s", k, mv_str(c.received[k]).c_str(), mv_str(exp[k]).c_str())); break; }
